@@ -174,6 +174,57 @@ let handle (toks : string list) : string =
     String.concat " " (Stdlib.List.map (function
       | Poller.PMData (a, p, r, t) -> Printf.sprintf "D:%s:%s:%s:%s" (string_of_z a) (string_of_z p) (string_of_z r) (string_of_z t)
       | Poller.PMNoReplyGrace -> "NG" | Poller.PMNoReply -> "NR" | Poller.PMPhcFailGrace -> "PG" | Poller.PMPhcFail -> "PF") ms)
+  | "wld" :: drift :: cfg_refid :: n :: rest ->
+    (* composition of Poller.poll_step, Updater.ustep and Client.compute_bound_at on the same script *)
+    let ns = z_of_string "1000000000" in
+    let ts_of z = let (q, r) = Z.div_eucl z ns in { Mach.ts_sec = q; Mach.ts_nsec = r } in
+    let ns_of t = Z.add (Z.mul t.Mach.ts_sec ns) t.Mach.ts_nsec in
+    let drift = z_of_string drift in
+    let cfg = (let r = z_of_string cfg_refid in match r with Zneg _ -> None | _ -> Some r) in
+    let out = ref [] in
+    let ust = ref (Updater.u_init drift) in
+    let last_good = ref None in          (* None: daemon not running *)
+    let record = ref None in
+    let rec go k toks =
+      if k = 0 then () else
+      match toks with
+      | "P" :: t :: mode :: d :: e :: phc :: refid :: leap :: itv :: kind :: age_s :: age_n :: corr :: delay :: disp :: tl ->
+        let t = z_of_string t in
+        let lg = (match !last_good with Some x -> x | None -> Poller.poller_init t) in
+        let phc = z_of_string phc in
+        let step = { Poller.p_t = t; p_mode = (if mode = "1" then Poller.PReply else Poller.PSilent); p_d = z_of_string d; p_e = z_of_string e;
+                     p_phc = (match phc with Zneg _ -> None | _ -> Some phc); p_refid = z_of_string refid; p_tag = Z0 } in
+        let (lg', m) = Poller.poll_step cfg lg step in
+        last_good := Some lg';
+        let age = if z_of_string kind = Z0 then Some (z_of_string age_s, z_of_string age_n) else None in
+        let umsg = (match m with
+          | Poller.PMData (a, ph, _, _) -> Updater.MReport (z_of_string delay, z_of_string disp, z_of_string corr, z_of_string leap, z_of_string itv, age, ph, ts_of a)
+          | Poller.PMNoReplyGrace | Poller.PMPhcFailGrace -> Updater.MMissing true
+          | Poller.PMNoReply | Poller.PMPhcFail -> Updater.MMissing false) in
+        (match Updater.ustep !ust umsg with
+         | None -> out := "p:panic" :: !out
+         | Some (u', c) ->
+           ust := u'; record := Some c;
+           out := (String.concat ":" ["p"; string_of_z c.Client.c_as_of.Mach.ts_sec; string_of_z c.Client.c_as_of.Mach.ts_nsec;
+                                      string_of_z c.Client.c_void_after.Mach.ts_sec; string_of_z c.Client.c_void_after.Mach.ts_nsec;
+                                      string_of_z c.Client.c_bound; string_of_z c.Client.c_drift; string_of_z (Client.status_code c.Client.c_status)]) :: !out);
+        go (k - 1) tl
+      | "C" :: real :: mono :: tl ->
+        (match !record with
+         | None -> out := "c:noclient" :: !out
+         | Some c ->
+           (match Client.compute_bound_at c (ts_of (z_of_string real)) (ts_of (z_of_string mono)) with
+            | Client.Ok ((e, l), st) -> out := (String.concat ":" ["c"; "ok"; string_of_z (ns_of e); string_of_z (ns_of l); string_of_z (Client.status_code st)]) :: !out
+            | Client.Err Client.EMalformed -> out := "c:err:malformed" :: !out
+            | Client.Err Client.ECausality -> out := "c:err:causality" :: !out
+            | Client.Panic -> out := "c:panic" :: !out));
+        go (k - 1) tl
+      | "R" :: _t :: tl ->
+        ust := Updater.u_init drift; last_good := None; out := "r" :: !out;
+        go (k - 1) tl
+      | _ -> failwith "wld: bad item" in
+    go (int_of_string n) rest;
+    String.concat " " (Stdlib.List.rev !out)
   | "gro" :: e :: d :: [] -> string_of_z (Client.growth (z_of_string e) (z_of_string d))
   | tag :: _ -> failwith ("unknown tag " ^ tag)
   | [] -> ""
